@@ -143,6 +143,24 @@ def catalogue(tier="quick", backends=("hand", "tt", "jax")):
             for k, kw in enumerate(TT_PARAMS[name][:1]):
                 add(f"jax.{name}#{k}", lambda fun=fun, kw=kw: CJ.Hyperelastic(fun, **kw), "jax", iso=True, eigen=name in EIGEN,
                     stressfree=REGULARISED.get(name, 0.0), micro=name in MICRO, cost=8)
+        # a user-written ANISOTROPIC energy psi(C) (Neo-Hooke matrix + one fibre family along an oblique direction) through the jax
+        # wrapper, with the checker's own numpy energy of F^T F: the wrapper has to hand the RIGHT Cauchy-Green tensor to psi
+        a_fib = np.array([0.6, 0.48, 0.64])
+
+        def _psi_fibre(Cm, mu, k1):
+            import jax.numpy as jnp
+
+            a_ = jnp.array(a_fib)
+            I4 = a_ @ Cm @ a_
+            return mu / 2 * (jnp.linalg.det(Cm) ** (-1 / 3) * jnp.trace(Cm) - 3) + 2.5 * (jnp.sqrt(jnp.linalg.det(Cm)) - 1) ** 2 + k1 * (I4 - 1) ** 2
+
+        def _w_fibre(F, mu=1.0, k1=0.7):
+            Cn = np.einsum("ki...,kj...->ij...", F, F)
+            J = np.sqrt(np.linalg.det(np.moveaxis(Cn, (0, 1), (-2, -1))))
+            I4 = np.einsum("i,ij...,j->...", a_fib, Cn, a_fib)
+            return mu / 2 * (J ** (-2 / 3) * np.trace(Cn) - 3) + 2.5 * (J - 1) ** 2 + k1 * (I4 - 1) ** 2
+
+        add("jax.Hyperelastic(user fibre energy)", lambda: CJ.Hyperelastic(_psi_fibre, mu=1.0, k1=0.7), "jax", iso=False, energy=_w_fibre, cost=8)
         add("jax.Material(morph)", lambda: CJ.Material(CJ.models.lagrange.morph, p=MORPH_P, nstatevars=13), "jax", nstate=13, hyper=False,
             states=[("virgin", lambda n: _sv(13, n)), ("after-call", None)], cost=10, lattice="generic", stressfree=1e-4)
     return out
